@@ -554,7 +554,7 @@ Lemma trailing_none_split its :
   let nd := leading_none (rev its) in
   let n := length its - nd in
   its = firstn n its ++ repeat None nd /\ nd <= length its /\
-  (n = 0 \/ exists x, nth_error its (n - 1) = Some (Some x)).
+  (n = 0 \/ (0 < n /\ exists x, nth_error its (n - 1) = Some (Some x))).
 Proof.
   cbn zeta. destruct (leading_none_split (rev its)) as [E1 E2].
   set (nd := leading_none (rev its)) in *.
@@ -569,8 +569,9 @@ Proof.
   split; [rewrite F; exact E|]. split; [exact Lnd|].
   destruct E2 as [E2|[x [r' E2]]].
   - left. rewrite E2 in Ln. simpl in Ln. lia.
-  - right. exists x. rewrite E2 in Ln, E. simpl in Ln, E. clear -E Ln Lnd.
+  - right. rewrite E2 in Ln, E. simpl in Ln, E. clear -E Ln Lnd.
     rewrite app_length in Ln. simpl in Ln. rewrite rev_length in Ln.
+    split; [lia|]. exists x.
     rewrite E at 1. rewrite <- app_assoc. rewrite nth_error_app2 by (rewrite rev_length; lia).
     rewrite rev_length. replace (length its - nd - 1 - length r') with 0 by lia. reflexivity.
 Qed.
